@@ -10,7 +10,7 @@ ALLOWED_AXIOMS = {"Classical_Prop.classic", "ClassicalDedekindReals.sig_not_dec"
                   "ClassicalDedekindReals.sig_forall_dec",
                   "FunctionalExtensionality.functional_extensionality_dep"}
 MANIFEST = {
-    "text": "Coq theorems over the handler model (Model/Api.v): conversions broker<->proto are the identity on kind and payload in both directions, NotAvailable is the one value reported as absent, a value accepted through any API is stored exactly as sent and every read path of every API hands out that one stored datapoint, the handlers change the state only through the core operations they issue (refinement), and data/entry types travel through injective tables carrying the .proto numbers. Tied to the code on every run by (a) a complete sweep of the real From/Into impls of all three conversions.rs files over every value kind x a payload pool (-0, NaN payload classes, subnormals, extremes, empty and long arrays, non-ASCII strings) and every data/entry type, compared as raw bits, and (b) handler-level histories in which values are written through one API (v1 Set, v2 PublishValue, sdv UpdateDatapoints/SetDatapoints, in-process) and read back through every other (v1 Get, v2 GetValue/GetValues, sdv GetDatapoints) and metadata is read through v1 Get(metadata), v2 ListMetadata and sdv GetMetadata, with an independent consistency monitor.",
+    "text": "Coq theorems over the handler model (Model/Api.v): conversions broker<->proto are the identity on kind and payload in both directions, NotAvailable is the one value reported as absent, a value accepted through any API is stored exactly as sent and every read path of every API hands out that one stored datapoint, the handlers change the state only through the core operations they issue (refinement), and data/entry types travel through injective tables carrying the .proto numbers. Tied to the code on every run by (a) a complete sweep of the real From/Into impls of all three conversions.rs files over every value kind x a payload pool (-0, NaN payload classes, subnormals, extremes, empty and long arrays, non-ASCII strings) and every data/entry type, compared as raw bits, and (b) handler-level histories in which values are written through one API (v1 Set, v2 PublishValue, sdv UpdateDatapoints/SetDatapoints, in-process) and read back through every other (v1 Get, v2 GetValue/GetValues, sdv GetDatapoints) and metadata is read through v1 Get(metadata), v2 ListMetadata and sdv GetMetadata, with an independent consistency monitor. Third part: the VISS family judged by the C15 clauses (values as texts, the static-metadata tree: data type names, entry types, allowed lists). Unit and description: every API reports them as registered (flags set by the harness, not modelled). Bounds of 64-bit types that no double represents are reported exactly by every API.",
     "note": "Trusted: Coq kernel; the 4 stdlib axioms entering through Flocq via validate; extraction + OCaml driver; harness/src/fam_wire.rs, fam_api.rs (real tonic handlers as trait methods, test-side proto<->value glue). Modelled, not verified: prost/tonic encoding on the wire (handlers are called in-process), VISS text conversion (C20). Documented protocol gaps are part of the statement: sdv reports no bool allowed list and always CONTINUOUS; v1 reports value restrictions only for string/integer/float families, widened to 64 bit.",
 }
 RULE = B.RULE
